@@ -76,6 +76,7 @@ def run(prog, chk):
     chk.rule('R09.1a', 'every by-name walk of the scope stack stops at the frame-base marker')
     chk.rule('R09.1b', 'every frame-entry function moves the frame base to its own scope before evaluating anything and restores it on all exits')
     chk.rule('R09.1c', 'the frame-base marker is written only by frame guards / frame entries')
+    chk.rule('R09.1d', 'every switch of the lexical class context is followed by its own frame boundary before user code is evaluated')
 
     # ---- by-name walks ----------------------------------------------------------------------
     walks = []
@@ -203,6 +204,42 @@ def run(prog, chk):
                     ok = _is_size_minus(a[bidx], env, 1) or _is_size_minus(a[bidx], env, 0)
                     chk.ob('R09.1c', f, n.get('ln', f.ln), ok, 'frame guard base must be %s.size() or %s.size()-1, found %s' % (env, env, SX.show(a[bidx])[:40]),
                            key='guard-base:' + f.short, nontrivial=False)
+    # ---- R09.1d: a lexical-context switch needs its own frame boundary before anything is evaluated -----------------
+    ctx = [f_['name'] for f_ in R.ev['fields'] if f_['type'].endswith('RuntimeClass *') and 'ctx' in f_['name'].lower()]
+    nsw = 0
+    if len(ctx) == 1:
+        ctx = ctx[0]
+        for f in evfns:
+            if f.kind == 'lambda':
+                continue
+            g = prog.cfg(f)
+            saved = {d.e['id'] for d in g.nodes if d.kind == 'decl' and SX.is_this_member(SX.strip(d.e.get('init')), ctx)}
+            switches = [n for n, l, r, op in g.writes() if SX.is_this_member(SX.strip(l), ctx) and not
+                        (SX.is_node(SX.strip(r)) and SX.strip(r).get('k') == 'ref' and SX.strip(r).get('id') in saved) and SX.strip(r).get('k') != 'nullptr']
+            if not switches:
+                continue
+            evals = [cn for cn in g.calls(lambda e: e['k'] == 'mcall' and SX.short(e['callee']) in ('exec', 'eval') and e['callee'].startswith(R.ev['name']))]
+            sets = []
+            for cn in g.nodes:
+                if cn.kind == 'decl' and SX.is_node(cn.e.get('init')) and cn.e['init']['k'] == 'construct' and cn.e['init']['type'] in guards:
+                    pidx, bidx = guards[cn.e['init']['type']]
+                    a = cn.e['init']['args']
+                    if pidx < len(a) and SX.is_this_member(SX.strip(a[pidx]), M):
+                        sets.append(cn)
+                if cn.kind == 'assign' and SX.is_this_member(SX.strip(cn.e['l']), M):
+                    sets.append(cn)
+            for w in switches:
+                after = g.reachable([w], avoid=sets)
+                leak = [e for e in evals if e.id in after]
+                if not [e for e in evals if e.id in g.reachable([w])]:
+                    continue
+                nsw += 1
+                chk.ob('R09.1d', f, w.ln or f.ln, not leak,
+                       '%s switches the lexical class context (%s) and then evaluates user code: a frame boundary must be set after the switch and before the evaluation, '
+                       'on every path and for every iteration — otherwise the body sees the locals of whoever triggered it (or of the previous level) before its own fields%s' % (
+                           f.short, SX.show(w.e)[:50], '' if not leak else '; reaches %s without one' % SX.show(leak[0].e)[:40]), key='ctx-switch:%s' % f.short)
+    chk.count('class-context switches followed by evaluation', nsw, 4)
+
     # ---- writers of M ------------------------------------------------------------------------
     nW = 0
     for f in prog.functions:
